@@ -4670,6 +4670,9 @@ class PyCdlib:
         # Above we checked to make sure we got at least one old path, so we
         # don't need to worry about the else situation here.
 
+        if not boot_catalog_old and (not old_rec.is_file() or old_rec.is_symlink() or old_rec.inode is None):
+            raise pycdlibexception.PyCdlibInvalidInput('Can only make a hard link to a file (not to a directory or a symlink)')
+
         num_bytes_to_add = self._add_hard_link_to_inode(old_rec.inode,
                                                         old_rec.get_data_length(),
                                                         fmode, boot_catalog_old,
